@@ -1,9 +1,11 @@
 (* L4 model: src/number/algebraic_number.c (property C07).  Executable Gallina, stdlib only, no proofs here.
 
    lp_algebraic_number_t { lp_upolynomial_t* f; lp_dyadic_interval_t I; int sgn_at_a, sgn_at_b }
-     -> record alg { af : option poly; aa ab : dyadic; asa asb : Z }
-        af = None  : the point aa (C: f == 0, I.is_point, I.b not constructed; the model keeps ab = aa, asa = asb = 0)
-        af = Some p: the unique root of p in the OPEN interval (aa, ab); asa/asb cache the signs of p at the ends.
+     -> record anum { an_f : option poly; an_a an_b : dyadic; an_sa an_sb : Z }
+        an_f = None  : the point an_a (C: f == 0, I.is_point, I.b not constructed; the model keeps an_b = an_a,
+                       an_sa = an_sb = 0)
+        an_f = Some p: the unique root of p in the OPEN interval (an_a, an_b); an_sa / an_sb cache the signs of p at
+                       the ends.
    The numbers are mutated through const pointers (refinement); every function that may refine an operand RETURNS the
    new state of the operand beside its answer.  Loops with data-dependent bounds take fuel.
    Lower layers are called through their reference functions (DESIGN 1.2): signs of polynomials at points by
